@@ -1,5 +1,6 @@
 import OFCore.Equivariance
 import OFCore.Drv.Sim
+import OFCore.Drv.Grp
 /-!
 Line protocol for the `eqv` domain (C11): one merged population plus selections, one line.
 
@@ -15,6 +16,16 @@ Answer: `<results of the merged simulation>~<results of part 1 simulated alone>~
 The part simulated alone is `restrict decl sel gsel` run by the same machine on the same requests.
 A selection that is not closed (a kept household names a person that is not kept, or conversely)
 is not a situation: its answer is `ERR`.  `BAD` for a malformed line.
+
+Group-level stream (the order-dependent operations, which the expression language does not have):
+```
+eqv G <roles> <count> <members> <op> <role> <args…> S <k> { <n> <person index …> <m> <group index …> }
+```
+the part before `S` is a line of the `grp` protocol (operations nth first rank sum min max any all nb
+from project hasrole, and `chain …` of them) on the MERGED population; every selection keeps the
+persons in merged order.  Answer: `<answer of the grp line>~<answer of the same operation on
+restrictPop with the arrays read at the part's persons / groups>~…`; `ERR` for a selection that is
+not closed or does not keep the persons in merged order.
 -/
 namespace OFCore.Drv
 open OFCore OFCore.Engine OFCore.RuleSys OFCore.Equivariance
@@ -32,7 +43,69 @@ def resultsOf (c : SimCase) : String := ((runCase c).splitOn "|").headD ""
 def partAnswer (c : SimCase) (s : List Nat × List Nat) : String :=
   if decide (Closed c.decl s.1 s.2) then resultsOf { c with decl := restrict c.decl s.1 s.2 } else "ERR"
 
+/-! ### group-level stream -/
+
+def showValsTok : Vals → String
+  | .ints l => "i:" ++ ",".intercalate (l.map toString)
+  | .bools l => "b:" ++ String.ofList (l.map fun b => if b then 'T' else 'F')
+
+def showMembersTok (ms : List Grp.Member) : String :=
+  if ms.isEmpty then "-" else ",".intercalate (ms.map fun m => s!"{m.group}.{m.role}")
+
+def reindexVals (l : List Nat) : Vals → Vals
+  | .ints v => .ints (selArr l v 0)
+  | .bools v => .bools (selArr l v false)
+
+def reTok (l : List Nat) (tok : String) : Option String := (parseVals tok).map fun v => showValsTok (reindexVals l v)
+
+/-- the arguments of an operation of the `grp` protocol, read at the part -/
+def restrictArgs (sel gsel : List Nat) : String → List String → Option (List String)
+  | "nth", [k, d, v] => do pure [k, d, ← reTok sel v]
+  | "first", [v] => do pure [← reTok sel v]
+  | "rank", [c, b] => do pure [← reTok sel c, ← reTok sel b]
+  | "sum", [v] => do pure [← reTok sel v]
+  | "min", [v] => do pure [← reTok sel v]
+  | "max", [v] => do pure [← reTok sel v]
+  | "any", [v] => do pure [← reTok sel v]
+  | "all", [v] => do pure [← reTok sel v]
+  | "nb", [] => some []
+  | "hasrole", [] => some []
+  | "from", [d, v] => do pure [d, ← reTok sel v]
+  | "project", [v] => do pure [← reTok gsel v]
+  | _, _ => none
+
+def grpPart (rt : String) (p : Grp.Pop) (op role : String) (rest : List String) (s : List Nat × List Nat) : String :=
+  if decide (ClosedPop p s.1 s.2) then
+    let q := restrictPop p s.1 s.2
+    let rest' := match op, rest with
+      | "chain", start :: sc :: op2 :: rest2 => (restrictArgs s.1 s.2 op2 rest2).map fun r => start :: sc :: op2 :: r
+      | _, _ => restrictArgs s.1 s.2 op rest
+    match rest' with
+    | some r => handleGrp (rt :: toString q.n :: showMembersTok q.ms :: op :: role :: r)
+    | none => "BAD"
+  else "ERR"
+
+def splitAtS : List String → List String → Option (List String × List String)
+  | _, [] => none
+  | acc, "S" :: rest => some (acc.reverse, rest)
+  | acc, t :: rest => splitAtS (t :: acc) rest
+
+def handleEqvG (args : List String) : String :=
+  match splitAtS [] args with
+  | some (rt :: cnt :: mem :: op :: role :: rest, selToks) =>
+    match cnt.toNat?, parseMembers mem, pNat selToks with
+    | some n, some ms, some (k, selRest) =>
+      match pMany pSel k selRest with
+      | some (sels, []) =>
+        "~".intercalate (handleGrp (rt :: cnt :: mem :: op :: role :: rest) :: sels.map (grpPart rt ⟨n, ms⟩ op role rest))
+      | _ => "BAD"
+    | _, _, _ => "BAD"
+  | _ => "BAD"
+
 def handleEqv (args : List String) : String :=
+  match args with
+  | "G" :: rest => handleEqvG rest
+  | _ =>
   match pCase args with
   | some (c, "S" :: rest) =>
     match pNat rest with
